@@ -74,12 +74,15 @@ impl Prop for C14 {
             // modes the typed keys are not pressed at the OS, so they must not be repeated there
             let mode = *r.pick(&["hidden-suppressed", "hidden-delay-type", "visible-backspaced"]);
             let cact = *r.pick(&["c", "S-c", "b", "(multi lctl c)"]);
+            // a second leader enters sequence mode with an input mode of its own
+            let mode2 = *r.pick(&["hidden-suppressed", "hidden-delay-type", "visible-backspaced"]);
             let cfg = format!(
-                "(defcfg sequence-input-mode {mode} sequence-timeout {})\n(defsrc f1 a b c)\n(deflayer l0 sldr a b {cact})\n(defvirtualkeys v0 f13)\n(defseq v0 (a b))\n",
+                "(defcfg sequence-input-mode {mode} sequence-timeout {})\n(defsrc f1 f2 a b c)\n(deflayer l0 sldr (sequence {} {mode2}) a b {cact})\n(defvirtualkeys v0 f13)\n(defseq v0 (a b))\n",
+                *r.pick(&[60u64, 200]),
                 *r.pick(&[60u64, 200])
             );
             let mut case = Case { prop: "C14".into(), seed, cfg, ..Default::default() };
-            let (f1, a, b, c) = (oscode_of("f1"), oscode_of("a"), oscode_of("b"), oscode_of("c"));
+            let (f1, a, b, c) = (oscode_of(if r.chance(500) { "f1" } else { "f2" }), oscode_of("a"), oscode_of("b"), oscode_of("c"));
             let mut ops = vec![Op::Press(f1), Op::Gap(3), Op::Release(f1), Op::Gap(r.range(2, 10) as u32)];
             let mut down: Vec<u16> = vec![];
             for _ in 0..r.range(3, 10) {
